@@ -327,9 +327,11 @@ def errclass(e):
     return 9
 
 
-def make_writer(cfg, chdir, uuid="verif-uuid"):
+def make_writer(cfg, chdir, uuid="verif-uuid", path=None):
+    """path: the str object naming chdir that the caller holds (a later session of the same recorder passes the
+    very same object again); default: a fresh spelling of chdir"""
     import digital_rf
-    return digital_rf.DigitalRFWriter(common.path_form(chdir), cfg.realdtype, cfg.sc, cfg.fc, cfg.start, cfg.n, cfg.d, uuid,
+    return digital_rf.DigitalRFWriter(path if path is not None else common.path_form(chdir), cfg.realdtype, cfg.sc, cfg.fc, cfg.start, cfg.n, cfg.d, uuid,
                                       cfg.comp, cfg.cksum, cfg.is_complex, cfg.nsub, cfg.cont, False)
 
 
@@ -395,7 +397,7 @@ def _input_form(cfg, arr, which):
     return arr
 
 
-def impl_stepper(cfg, ops, chdir, hook=None):
+def impl_stepper(cfg, ops, chdir, hook=None, pform=None):
     """generator: executes one op on a real DigitalRFWriter per step (the writer is created at the first
     step); its return value (StopIteration.value) is (per-op reports [cls, ret, next, written, gap], writer).
     Several steppers may be advanced in turns: several writers alive in one process must not influence
@@ -403,7 +405,10 @@ def impl_stepper(cfg, ops, chdir, hook=None):
     os.makedirs(chdir, exist_ok=True)
     cur = {"api": "python", "cfg": cfg.as_dict(), "ops": [list(o) for o in ops]}
     common.set_current(cur)
-    w = make_writer(cfg, chdir)
+    held_path = common.path_form(chdir, pform)   # the recorder's own variable: every session passes this object
+    used_form = common.path_form.last
+    w = make_writer(cfg, chdir, path=held_path)
+    w._verif_pform = used_form
     reports = []
     kept = []       # a caller may keep the exceptions of refused calls (logging, retry queues): they stay alive
     for i, op in enumerate(ops):
@@ -422,7 +427,8 @@ def impl_stepper(cfg, ops, chdir, hook=None):
                 w.close()
                 cfg = Cfg(cfg.n, cfg.d, cfg.sc, cfg.fc, op[1], cfg.cont, cfg.comp, cfg.cksum, cfg.kind, cfg.size,
                           cfg.order, cfg.is_complex, cfg.nsub)
-                w = make_writer(cfg, chdir)
+                w = make_writer(cfg, chdir, path=held_path)
+                w._verif_pform = used_form
         except Exception as e:  # noqa
             cls, ret = errclass(e), 0
             if cls == 9:
@@ -436,9 +442,9 @@ def impl_stepper(cfg, ops, chdir, hook=None):
     return reports, w
 
 
-def run_impl(cfg, ops, chdir, hook=None):
+def run_impl(cfg, ops, chdir, hook=None, pform=None):
     """execute ops on a real DigitalRFWriter; returns per-op reports [cls, ret, next, written, gap]"""
-    g = impl_stepper(cfg, ops, chdir, hook)
+    g = impl_stepper(cfg, ops, chdir, hook, pform)
     while True:
         try:
             next(g)
@@ -785,7 +791,9 @@ def replay(res, rp):
     if inp.get("api") == "C":
         reports = run_capi(cfg, ops, chdir)
     else:
-        reports, w = run_impl(cfg, ops, chdir)
+        if inp.get("directory_spelling") is not None:
+            print("channel directory passed as:", common.PATH_FORM_NAMES[inp["directory_spelling"]], "(the same str object in every session)")
+        reports, w = run_impl(cfg, ops, chdir, pform=inp.get("directory_spelling"))
         try:
             w.close()
         except Exception:  # noqa
